@@ -58,8 +58,7 @@ def check(case, ctx):
     if case.get("repeat"):
         from rv.props._util import repeat_call
 
-        if not repeat_call(ctx, "ternary", "ternary", cg.tx.ternary, (c,), {}, (ok, r)):
-            return
+        ok, r = repeat_call(ctx, "ternary", "ternary", cg.tx.ternary, (c,), {}, (ok, r))
     if not ok:
         if net.has_x() and isinstance(r, ValueError):
             ctx.reject("x_constant")
